@@ -860,6 +860,7 @@ func runC07(c *Ctx) {
 	c.c07Helpers()
 	c.c07NarrowArith()
 	c.c07ParamTable()
+	c.c07ParsersHistoryFree()
 	R.Require("E3.roundtrip-layout", 24, "")
 	R.Require("E3.parser-reads-written-bytes", 24, "")
 	R.Require("S.codec-helpers", 5, "")
@@ -1444,4 +1445,35 @@ func (c *Ctx) c07ParamTable() {
 	R.Notes["param_table_record_encoder_calls"] = n
 	R.Require("S.param-table", 4+7, "")
 	R.Notes["param_table_record_encoders"] = len(gens)
+}
+
+// c07ParsersHistoryFree: Encode(Parse(body)) == body is claimed for every receiver, also one that parsed something else
+// before (every connection and the simulator keep one handler object per message type). A field that a parser writes on
+// some path but not on another survives from the previous body and is re-encoded: so every field a two-way type's
+// parser writes is written from the current body on every successful path (E2, the rule of C03, restricted to the
+// types that have an encoder).
+func (c *Ctx) c07ParsersHistoryFree() {
+	R := c.R
+	R.Rules["E2.field"] = "every field that the parser of a two-way message type writes on some path is written from the body being parsed on every successful path: re-encoding a parsed value never re-emits fields of an earlier body (the optional retransmit section of 0x8800, for example)"
+	R.Rules["E2.branch"] = "no branch of such a parser depends on a field it writes itself before this call has written it"
+	var entries []*ssa.Function
+	seen := map[*ssa.Function]bool{}
+	for _, t0 := range c.c07Types() {
+		if t0.parse != nil && !seen[t0.parse] {
+			seen[t0.parse] = true
+			entries = append(entries, t0.parse)
+		}
+	}
+	recvs := map[*ssa.Function]map[int]string{}
+	res := c.RunE1(entries, false, func(a *absint.Analyzer, fn *ssa.Function, st *absint.State, args []absint.Term) {
+		preJTMsg(a, fn, st, args)
+		a.TrackObj(st, args[0], fn.Params[0].Type())
+		c.mu.Lock()
+		recvs[fn] = map[int]string{args[0].(*absint.Ptr).Obj.ID: ""}
+		c.mu.Unlock()
+	})
+	for _, r := range res {
+		c.e2EvaluateObjs(r, recvs[r.Fn])
+	}
+	R.Require("E2.field", 60, "")
 }
